@@ -246,6 +246,22 @@ def run_job(job, cap=5):
                 before_arch = r['before'].get(an, b'')
                 journals = [f for f in r['after'] if f.endswith('-wpullinc')]
                 where = '%s of %s (op %d/%d, %s)' % (op['op'], op['path'], i, len(ops), mode)
+                # (a') fault followed by a kill: the process may die at any later operation of
+                # the error handling (rollback truncate, journal unlink)
+                if r['fired']:
+                    for j in range(i + 1, len(r['ops']) + 1):
+                        state = faultfs.apply_ops(dict(r['before']), r['ops'], j, None,
+                                                  partial_fault=(i, mode))
+                        res['evaluations'] += 1
+                        res['extra']['crash_states'] += 1
+                        res['states'].add(h64((tag, 'io+kill', i, mode, j)))
+                        vv = check_crash_state(state, len(before_arch), compress)
+                        if vv:
+                            opd = r['ops'][j - 1]
+                            viol('I/O error at %s, then kill after the following %s of %s: %s'
+                                 % (where, opd['op'], opd['path'], vv),
+                                 'io+kill:' + vv.split('(')[0][:40], fault_at=i, mode=mode,
+                                 kill_after=j)
                 if r['exc'] and r['exc'].startswith('UNEXPECTED'):
                     viol('I/O error at %s surfaced as %s' % (where, r['exc']),
                          'io-unexpected-exception:' + op['op'], fault_at=i, mode=mode)
